@@ -4,7 +4,8 @@ package main
 //
 // Behaviours are sequences of
 //   {op:"new",    opts, co}                         markdown.NewExporter(opts or nil)
-//   {op:"export", body, opts, api, co, origin}      build the abstract body with the public API (origin "open": save and
+//   {op:"export", body, opts, api, co, origin}      build the abstract body with the public API (a numbered heading / quote /
+//                                                   code paragraph = a list item given that style; origin "open": save and
 //                                                   reopen it), export it through ExportToString / ExportToBytes /
 //                                                   ExportToFile / BatchExport / AutoConvert, convert the Markdown back
 //                                                   with the real ConvertString and export that again
@@ -162,7 +163,8 @@ func mdoBuild(c *mdoConc, body []mdoBlk, salt int64) *document.Document {
 		if len(b.Runs) > 0 {
 			first, firstFmt, rest = c.text(b.Runs[0].T), mdoFormat(b.Runs[0].F), b.Runs[1:]
 		}
-		if b.K == "li" {
+		// a list item, or a heading / quote / code paragraph that carries numbering properties (the style is set below)
+		if b.K == "li" || b.A != "" {
 			cfg := &document.ListConfig{Type: document.ListTypeBullet, BulletSymbol: document.BulletTypeDot, IndentLevel: b.N}
 			if b.A == "num" {
 				cfg = &document.ListConfig{Type: document.ListTypeDecimal, IndentLevel: b.N, StartNumber: 1}
